@@ -394,6 +394,13 @@ Eval(M, e) ==
                    ELSE (CASE e.name = "SIZE" -> VI(s.sh[dv.v])
                            [] e.name = "LBOUND" -> VI(1)
                            [] e.name = "UBOUND" -> VI(s.sh[dv.v]))
+          ELSE IF e.name = "HUGE" THEN
+             \* a value larger than anything the bounded domain produces
+             LET x == Eval(M, e.args[1])
+                 ty == IF IsP(x) THEN (IF e.args[1].k \in {"ref", "aref"} /\ Known(M, e.args[1].name)
+                                       THEN TypeAt(M, DescOf(M, e.args[1].name).base) ELSE "r")
+                       ELSE IF IsArr(x) THEN (IF Len(x.d) > 0 THEN x.d[1].t ELSE "r") ELSE x.t
+             IN IF ty = "i" THEN VI(1000000) ELSE VR(1000000, 1)
           ELSE IF e.name = "TRANSPOSE" THEN
              LET x == Eval(M, e.args[1]) IN
              IF IsP(x) \/ ~IsArr(x) THEN POISON ELSE IF Len(x.sh) # 2 THEN POISON
@@ -420,7 +427,8 @@ ExprReads(M, e) ==
     [] e.k = "un" -> ExprReads(M, e.e)
     [] e.k = "bin" -> ExprReads(M, e.l) \cup ExprReads(M, e.r)
     [] e.k = "icall" ->
-         (IF e.name \in {"SIZE", "LBOUND", "UBOUND"}
+         (IF e.name = "HUGE" THEN {}
+          ELSE IF e.name \in {"SIZE", "LBOUND", "UBOUND"}
           THEN UNION {ExprReads(M, e.args[i]) : i \in 2..Len(e.args)}   \* inquiry: no data read
           ELSE UNION {ExprReads(M, e.args[i]) : i \in DOMAIN e.args}
                \cup (IF "named" \in DOMAIN e
@@ -641,10 +649,10 @@ ExecStmt(M, s) ==
 \* ------------------------------------------------------------ initial store
 \* decl = [name, ty, dims (Seq of <<lo, hi>> ints), init ("in" | "poison" | "zero")]
 \* scalar inputs come from the valuation; arrays are filled by fill mode fm with
-\* base value 10 * (position of the declaration)
+\* base value 3 * (position of the declaration)
 FillVal(ty, fm, pos, lin) ==
   IF ty = "l" THEN VL((lin + fm) % 2 = 0)
-  ELSE LET iv == CASE fm = 1 -> 10 * pos + lin               \* injective
+  ELSE LET iv == CASE fm = 1 -> 3 * pos + lin                \* injective (small: 32-bit products)
                    [] fm = 2 -> ((lin + pos) % 3) - 1         \* -1, 0, 1 pattern
                    [] fm = 3 -> (IF lin % 2 = 0 THEN -1 ELSE 1) * (lin + pos)
                    [] OTHER  -> lin
